@@ -464,6 +464,8 @@ func (w *clWorld) prefixOf(a, b clHead) bool {
 //	       "P<hexpath>" exactly that path
 //	kind:  flip/<off>.<bit>   trunc/<len>   ext/<n>   extsig   err   negid   notree
 //	       swap/<hexpath>     serve the honest response of another path
+//	       pdrop/<variant>    tiles only: partial tiles are gone (request fails), the complete tile is served — with the
+//	                          true prefix and a made-up tail when the served tree does not have it yet (util_clpdrop.go)
 //	       split/<log>@<size> tiles only: right-edge tiles of that snapshot's tree come from it, all others honestly (split-view server)
 //	       src/<log>@<size>   serve the same path from another snapshot (stale head, fork, forged log)
 //	       emix/<log>@<size>  hash tiles only, entry-level splice: every hash entry of the tile that also exists in that
@@ -672,6 +674,8 @@ func (f clFault) apply(e *clEnv, path string, honest []byte, herr error) ([]byte
 	case "swap":
 		d, err := e.honestGet(unhx(f.param))
 		return d, err, true
+	case "pdrop":
+		return clPdropApply(e, path, f.param, honest, herr)
 	case "split":
 		// split-view server: a tile that lies on the right edge of (or beyond the common part inside) the given
 		// snapshot's tree is served from that snapshot, every other tile honestly
